@@ -1,16 +1,22 @@
 """
 C10 — rounding-lowering rewrites leave the rounding function unchanged.
 
-For generated source contexts (all families, modes, overflow modes, NaN/inf options, substitutes) a module
-defining `with C: y = fp.round(x)` (and variants) is written to a temp dir, every real strategy
-(`unfold_special`, `unfold_neg_zero`, `unfold_overflow` (+`early_check`), `float_to_fixed`, `rescale_fixed`) is
-applied alone and along every prefix of the documented lowering chains, and `q(x)` is compared with
-`lowered(x)` on the REAL interpreter for operands at every boundary of the source format.
+Three families of work items (run in parallel worker processes, each with its own PRNG stream derived from VERIF_SEED):
+ (1) plain sites: for generated source contexts (all families, modes, overflow modes, NaN/inf options, substitutes) a module
+     defining `with C: y = fp.round(x)` (and simple variants) is written to a temp dir;
+ (2) embedded sites: the rounding sits inside a program that feeds the ANALYSES the rewrites consult (value classes, partial
+     evaluation, reaching definitions): in each arm of `if`s on comparisons / isnan / isinf / isfinite / and / or / not, after
+     assignments that fix the class of the operand, after another rounding, in loops, after assert / early return, under
+     contexts computed at run time;
+ (3) `elim_round` / `insert_round` on templates with pinned contexts and argument formats.
+For (1) and (2) every real strategy (`unfold_special`, `unfold_neg_zero`, `unfold_overflow` (+`early_check`), `float_to_fixed`,
+`rescale_fixed`) is applied alone and along every prefix of the documented lowering chains, and original and lowered programs
+are compared on the REAL interpreter for operands at every boundary of the source format, NaN, +-inf, +-0 flowing through every arm.
   verdict (Spec oracle = the real interpreter on the ORIGINAL program): wherever the original returns a value the
      lowered program must return the same value (sign of zero, inf/NaN class included);
   refusals are counted per reason; an accepted context must be reproduced exactly;
-  `elim_round` / `insert_round` on templates with pinned contexts and argument formats must not change results;
-  correspondence: the lowered program is exported to the Lean evaluator and must behave like the real interpreter.
+  correspondence: the lowered program is exported to the Lean evaluator and must behave like the real interpreter; the constants
+     `float_to_fixed` emits are checked against the instance the theorem prescribes and the number model is run at the emitted position.
 """
 from __future__ import annotations
 import importlib.util, os, shutil, sys, tempfile, math, signal
@@ -23,6 +29,11 @@ from fpy2 import strategies as S
 from fpy2.number import Float, RealFloat
 
 PROP = 'C10'
+
+_run_real = run_real
+def run_real(fn, args, ctx=None, timeout_s=12):
+    """`langexport.run_real` with a timeout that survives a loaded machine (16 workers)"""
+    return _run_real(fn, args, ctx, timeout_s)
 
 class LoweredExporter(Exporter):
     """`langexport.Exporter` + a context bound at module level (`with C_q:` where `C_q` is a Python global of the
@@ -244,6 +255,13 @@ def corpus():
     # a zero negative bound with a signed zero: a negative overflow saturates to +0 (found while proving `neg_zero_unfold`)
     cs.append(dict(fam='mpbfix', nmin=-1, pos=(False, 0, 100), neg=(True, 0, 0), rm='rne', ov='saturate', k=0, nz=True, must=True, **fx))
     cs.append(dict(fam='mpbfix', nmin=-3, pos=(False, -2, 21), neg=(True, 0, 0), rm='rtz', ov='overflow', k=0, nz=True, **fx))
+    # a direction whose two sides overflow differently (RTN: +overflow saturates, -overflow goes to -inf; RTP the mirror image)
+    for rm in ('rtn', 'rtp'):
+        cs.append(dict(fam='mpbfix', nmin=-4, pos=(False, 0, 7), neg=(True, 0, 7), rm=rm, ov='overflow', k=0, nz=True, en=True, ei=True, nv=None, iv=None))
+        cs.append(dict(fam='mpb', p=3, emin=-2, pos=(False, 0, 7), neg=(True, 0, 7), rm=rm, ov='overflow', k=0, **fl))
+        cs.append(dict(fam='ieee', es=4, nbits=8, rm=rm, ov='overflow', k=0))
+    # a float format whose only values are the two zeros
+    cs.append(dict(fam='ef', es=0, nbits=2, inf=False, kind='maxval', eoff=0, rm='raz', ov='saturate', k=0, nv=None, iv=None))
     # wrapping sign-magnitude format whose two overflow probes agree by coincidence
     cs.append(dict(fam='smfixed', scale=-4, nbits=3, rm='rtn', ov='wrap', k=0, nv=None, iv=None, must=True))
     return cs
@@ -416,12 +434,12 @@ def describe(fn):
     try: return fn.format()
     except Exception: return '<unprintable>'
 
-def shape_of(d, strategy_seq, operand, want, got):
+def shape_of(d, strategy_seq, args, want, got, info=None):
     """the shape of a lowering violation (decides which listed finding, if any, it is an instance of)"""
     # non-dyadic rational operand: `float_to_fixed` computes `fp.logb(x)` under REAL, which refuses a
     # non-dyadic Fraction, while the original rounding accepts it
-    if ('float_to_fixed' in strategy_seq and isinstance(operand, Fraction)
-            and operand.denominator & (operand.denominator - 1) != 0 and got == 'err ValueError'):
+    if ('float_to_fixed' in strategy_seq and got == 'err ValueError'
+            and any(isinstance(o, Fraction) and o.denominator & (o.denominator - 1) != 0 for o in args)):
         return 'float_to_fixed-logb-refuses-nondyadic-rational'
     # a wrapping bounded fixed-point format accepted by `unfold_overflow` (its probe of two magnitudes agreed by
     # coincidence); the documentation promises a refusal
@@ -432,6 +450,20 @@ def shape_of(d, strategy_seq, operand, want, got):
     if ('unfold_neg_zero' in strategy_seq and d.get('fam') == 'mpbfix' and d.get('neg', (True, 0, 1))[2] == 0
             and want != got and want.replace('(n zero 0)', '(n zero 1)') == got):
         return 'unfold_neg_zero-zero-negative-bound'
+    # a float format whose only values are zeros (bound 0): `float_to_fixed` emits `MPBFixedContext(n, 0, ...)`, whose range
+    # end is `+0` for either sign, while the source saturates a negative operand onto `-0`
+    if 'float_to_fixed' in strategy_seq and d.get('fam') in ('ef', 'ieee', 'mpb') and want.replace('(n zero 1)', '(n zero 0)') == got:
+        try:
+            if ctx_obj(d).maxval().is_zero(): return 'float_to_fixed-zero-bound-format'
+        except Exception:
+            pass
+    # the sign of a NaN, observed through `signbit` / `copysign` after `rescale_fixed` scaled the operand under REAL
+    # (a REAL multiplication returns the canonical +NaN); NaN signs are otherwise not compared
+    if (info and 'rescale_fixed' in strategy_seq and any(t in info['text'] for t in ('fp.signbit(', 'fp.copysign('))
+            and (any(is_nan_operand(o) for o in args) or 'fp.nan()' in info['text'])):
+        return 'rescale_fixed-drops-nan-sign'
+    if info and info.get('kind') == 'embedded':
+        return 'embedded-site:' + info['variant'].split(':', 1)[1] + ':' + strategy_seq[-1]
     return 'lowering-other:' + strategy_seq[-1]
 
 # shape of a violation -> id of a listed finding (known_findings.json); a shape not in this table is reported
@@ -443,16 +475,22 @@ FINDING_OF_SHAPE = {
     'round-axis-exp-unbounded-target': 'F10',          # repaired in /repo (607d597); kept as a regression tag
     'round-axis-abs-asymmetric-bounds': 'F28',         # repaired (951959b)
     'round-axis-special-value-of-a-rounding-result': 'F30',   # repaired (b6c4d53)
+    'rescale_fixed-drops-nan-sign': 'C10-F4',
+    'float_to_fixed-zero-bound-format': 'C10-F5',
     'round-axis-neg-zero-from-exact-op': 'F29',        # C14's F29 (`__neg__` / `__mul__` and the sign of zero) reaching `insert_round`
 }
 PER_SHAPE = 3
 
 def viol(rep, shape, what, d):
-    """record a violation of the real code; every one is counted, at most PER_SHAPE replay records per shape"""
+    """record a violation of the real code; every one is counted, at most PER_SHAPE replay records per shape
+    (a worker keeps PER_SHAPE per work item, the parent re-applies the cap over the whole run)"""
     rep.count('violation:' + shape)
-    d = dict(d); d['shape'] = shape; d['finding'] = FINDING_OF_SHAPE.get(shape)
     if rep.hist['violation:' + shape] <= PER_SHAPE:
-        rep.violation(what, d)
+        if isinstance(rep, MiniRep):
+            rep.viols.append((shape, what, d))
+        else:
+            d = dict(d); d['shape'] = shape; d['finding'] = FINDING_OF_SHAPE.get(shape)
+            rep.violation(what, d)
 
 # ---------------------------------------------------------------- float_to_fixed: emitted constants + model evaluation
 
@@ -587,7 +625,7 @@ def f2f_tie(rep, xf, ctx, d, csrc, ops, results, lines, meta):
         except Exception as ex:
             rep.count(f'f2f-call-unparsed:{type(ex).__name__}'); return
         lines.append(f'round {ctx_tok(dd)} {num_tok(x)} 0 0')
-        meta.append(('f2f', f'float_to_fixed on {csrc}', repr(x), res, xf))
+        meta.append(('f2f', f'float_to_fixed on {csrc}', repr(x), res, describe(xf)))
 
 # ---------------------------------------------------------------- round elimination / insertion
 
@@ -660,232 +698,573 @@ ROUND_AXIS_CORPUS = [
     (True, 0, 'fp.MPFloatContext(11)', 'fp.FP32', ['fp.FP32', 'fp.FP32']),                         # F10 through insert_round
 ]
 
-def run_round_axis(rep, R, tmp, n_prog, lines, meta):
+# extra bodies for the rounding axis: the format of the operand is a JOIN over branches / loop iterations
+BODIES += [
+    (2, 'if z > 0:\n        t = x\n    else:\n        t = x * x\n    with {C}:\n        y = fp.round(t)\n    return y'),
+    (2, 't = x\n    for i in range(3):\n        with {C}:\n            t = t * z\n    return t'),
+    (2, 't = x\n    with {D}:\n        for i in range(2):\n            t = t + z\n    with {C}:\n        y = fp.round(t)\n    return y'),
+    (1, 'if x > 0:\n        with {C}:\n            y = fp.round(x)\n    else:\n        with {C}:\n            y = -x\n    return y'),
+    (2, 'with {C}:\n        t = fp.round(x)\n        y = fp.round(t + z)\n    return y'),
+]
+
+def round_axis_one(rep, R, tmp, pi, lines, meta):
     from fpy2.types import RealType
-    env = {'fp': fp}
-    for pi in range(n_prog + len(ROUND_AXIS_CORPUS)):
-        if pi < len(ROUND_AXIS_CORPUS):
-            insert, bi, C, D, afs = ROUND_AXIS_CORPUS[pi]
-            nargs, body = (EXACT_BODIES if insert else BODIES)[bi]
+    if pi < len(ROUND_AXIS_CORPUS):
+        insert, bi, C, D, afs = ROUND_AXIS_CORPUS[pi]
+        nargs, body = (EXACT_BODIES if insert else BODIES)[bi]
+    else:
+        insert = R.random() < 0.35
+        nargs, body = R.choice(EXACT_BODIES if insert else BODIES)
+        C = R.choice(TARGETS); D = R.choice(TARGETS + ARG_FMTS)
+        afs = [R.choice(ARG_FMTS) for _ in range(nargs)]
+    name = f'r{pi}'
+    params = ', '.join(f'{v}: fp.Real' for v in ('x', 'z')[:nargs])
+    text = HEADER + f'@fp.fpy\ndef {name}({params}) -> fp.Real:\n    ' + body.format(C=C, D=D) + '\n'
+    path = os.path.join(tmp, f'{name}.py')
+    with open(path, 'w') as fh: fh.write(text)
+    try:
+        fn = getattr(load_module(path, f'fpyverif_C10_{name}'), name)
+        argctxs = [py_ctx(a) for a in afs]
+        pinned = guarded(lambda: S.monomorphize(fn, fp.FP64, [RealType(c) for c in argctxs]))
+    except Exception as e:
+        rep.count(f'round-axis:setup-rejected:{type(e).__name__}'); return
+    target = py_ctx(C)
+    sname = 'insert_round' if insert else 'elim_round'
+    try:
+        if insert:
+            for _, why in S.refusals(S.insert_round, pinned, ctx=target):
+                rep.count(f'refused:insert_round:{short_reason(why)}')
+            xf = guarded(lambda: S.insert_round(pinned, target))
         else:
-            insert = R.random() < 0.4
-            nargs, body = R.choice(EXACT_BODIES if insert else BODIES)
-            C = R.choice(TARGETS); D = R.choice(TARGETS + ARG_FMTS)
-            afs = [R.choice(ARG_FMTS) for _ in range(nargs)]
-        name = f'r{pi}'
-        params = ', '.join(f'{v}: fp.Real' for v in ('x', 'z')[:nargs])
-        text = HEADER + f'@fp.fpy\ndef {name}({params}) -> fp.Real:\n    ' + body.format(C=C, D=D) + '\n'
-        path = os.path.join(tmp, f'{name}.py')
-        with open(path, 'w') as fh: fh.write(text)
-        try:
-            fn = getattr(load_module(path, f'fpyverif_C10_{name}'), name)
-            argctxs = [py_ctx(a) for a in afs]
-            pinned = guarded(lambda: S.monomorphize(fn, fp.FP64, [RealType(c) for c in argctxs]))
-        except Exception as e:
-            rep.count(f'round-axis:setup-rejected:{type(e).__name__}'); continue
-        target = py_ctx(C)
-        sname = 'insert_round' if insert else 'elim_round'
-        try:
-            if insert:
-                for _, why in S.refusals(S.insert_round, pinned, ctx=target):
-                    rep.count(f'refused:insert_round:{short_reason(why)}')
-                xf = guarded(lambda: S.insert_round(pinned, target))
-            else:
-                xf = guarded(lambda: S.elim_round(pinned))
-        except Hang:
-            rep.count(f'hang:{sname}'); continue
-        except Exception as e:
-            rep.count(f'declined:{sname}:{type(e).__name__}'); continue
-        changed = not xf.ast.is_equiv(pinned.ast)
-        rep.count(f'{sname}:' + ('changed' if changed else 'unchanged'))
-        if not changed: continue
+            xf = guarded(lambda: S.elim_round(pinned))
+    except Hang:
+        rep.count(f'hang:{sname}'); return
+    except Exception as e:
+        rep.count(f'declined:{sname}:{type(e).__name__}'); return
+    changed = not xf.ast.is_equiv(pinned.ast)
+    rep.count(f'{sname}:' + ('changed' if changed else 'unchanged'))
+    if not changed: return
+    rep.cov['programs'] = rep.cov.get('programs', 0) + 1
+    entry, prog = try_export(rep, xf)
+    desc = describe(xf)
+    pools = [members_of(R, c, 6) for c in argctxs]
+    if any(not p for p in pools): return
+    trials = [tuple(p[-(j % len(p)) - 1] for p in pools) for j in range(8)]    # bounds, zeros and specials of each pool first
+    trials += [tuple(R.choice(p) for p in pools) for _ in range(10)]
+    for args in trials:
+        want = run_real(pinned, args); got = run_real(xf, args)
+        if want.startswith('timeout') or got.startswith('timeout'):
+            rep.count('timeout'); continue
+        rep.cov['evaluations'] += 1
+        rep.distinct.add((text, sname, repr(args)))
+        rep.count('round-axis:orig:' + want.split()[0])
+        if want.startswith('ok') and got != want:
+            # F10: `AbstractFormat.__le__` skips the precision test when the target has no least exponent
+            # (MPFloatContext): a wider operand is "contained", the rounding is deleted / inserted wrongly
+            if is_mp(C) or (is_mp(D) and '{D}' in body): shape = 'round-axis-exp-unbounded-target'
+            elif 'abs(' in body: shape = 'round-axis-abs-asymmetric-bounds'
+            elif any(t in want + got for t in ('nan', 'inf')): shape = 'round-axis-special-value-of-a-rounding-result'
+            elif {want, got} == {'ok (n zero 0)', 'ok (n zero 1)'}: shape = 'round-axis-neg-zero-from-exact-op'
+            else: shape = 'round-axis-other'
+            viol(rep, shape, f'{sname}: original returns {want[:70]} but the rewritten program gives {got[:70]}',
+                 {'ctx_src': C, 'second_ctx': D if '{D}' in body else None, 'strategy': sname,
+                  'operand': args_src(args), 'arg_formats': afs,
+                  'original': want, 'lowered': got, 'program': text, 'lowered_program': desc})
+        if prog is not None and not got.startswith(('unsupported', 'timeout')):
+            lines.append(eval_line(entry, prog, args, None, fuel=100000))
+            meta.append(('eval', f'{sname} {C}', repr(args), got, desc))
+    rep.sample({'strategy': sname, 'original': describe(pinned), 'rewritten': desc}, cap=16)
+
+# ---------------------------------------------------------------- lowering a program and comparing it with the original
+
+def is_nan_operand(o) -> bool:
+    return (isinstance(o, float) and math.isnan(o)) or (isinstance(o, Float) and o.isnan)
+
+def args_src(args) -> str:
+    return '(' + ', '.join(operand_src(a) for a in args) + ',)'
+
+def lower_and_compare(rep, R, fn, inputs, info, quick, lines, meta, ctx=None, max_model=None):
+    """every strategy alone + every prefix of the documented chains on `fn`; original vs lowered on the real
+    interpreter for every argument tuple of `inputs`; the lowered programs go to the Lean evaluator too.
+    info: csrc, d, variant, form, arg_format, text."""
+    accepted = rep.cov.setdefault('accepted_per_strategy', {})
+    refused = rep.cov.setdefault('refused_per_strategy', {})
+    csrc, d, variant, text = info['csrc'], info['d'], info['variant'], info['text']
+    base = {}
+    def original(args, key):
+        if key not in base: base[key] = run_real(fn, args)
+        return base[key]
+    todo = {}    # tuple of names -> None; identical effective sequences are run once
+    for nm in STRATS:
+        if nm != 'simplify': todo[(nm,)] = None
+    chains = list(CHAINS.items()) if not quick else [(k, v) for k, v in CHAINS.items() if k in ('float-recipe', 'fixed-recipe') or R.random() < 0.4]
+    for _, seq in chains:
+        for k in range(2, len(seq) + 1): todo[tuple(seq[:k])] = None
+    done = {}    # sequence -> (Function | None, effective sequence)
+    def build(seq):
+        if seq in done: return done[seq]
+        if len(seq) == 0:
+            done[seq] = (fn, ()); return done[seq]
+        prev, eff = build(seq[:-1])
+        if prev is None:
+            done[seq] = (None, eff); return done[seq]
+        tag = '' if len(seq) == 1 else 'chain-'
+        out, status = apply_one(rep, seq[-1], prev, tag)
+        if len(seq) == 1:
+            bucket = accepted if status == 'applied' else refused
+            if status in ('applied', 'refused'):
+                bucket[seq[0]] = bucket.get(seq[0], 0) + 1
+        if status.startswith('error'):
+            rep.count(f'{tag}strategy-error:{seq[-1]}:{status[6:]}')
+            # a later step of a chain that cannot run on the output of an earlier one is recorded, not judged
+            done[seq] = (None, eff); return done[seq]
+        if status == 'applied' and not out.ast.is_equiv(prev.ast):
+            done[seq] = (out, eff + (seq[-1],))
+        else:
+            done[seq] = (prev, eff)
+        return done[seq]
+    seen_eff = set()
+    for seq in todo:
+        xf, eff = build(seq)
+        if xf is None or not eff or eff in seen_eff: continue
+        seen_eff.add(eff)
+        sname = ' > '.join(eff)
+        rep.count('lowered-programs'); rep.count('lowered-programs:' + info.get('kind', 'plain'))
+        rep.count(f'chain-length:{len(eff)}')
         rep.cov['programs'] = rep.cov.get('programs', 0) + 1
         entry, prog = try_export(rep, xf)
-        pools = [members_of(R, c, 6) for c in argctxs]
-        if any(not p for p in pools): continue
-        trials = [tuple(p[-(j % len(p)) - 1] for p in pools) for j in range(8)]    # bounds, zeros and specials of each pool first
-        trials += [tuple(R.choice(p) for p in pools) for _ in range(10)]
-        for args in trials:
-            want = run_real(pinned, args); got = run_real(xf, args)
+        desc = None
+        f2f_ops, f2f_res = [], []
+        nmodel = 0
+        for oi, args in enumerate(inputs):
+            want = original(args, oi)
+            if not want.startswith('ok'):
+                rep.count('orig:' + want.split()[0] + (':' + want.split()[1] if ' ' in want else '')); continue
+            got = run_real(xf, args)
+            if not got.startswith('timeout'):
+                f2f_ops.append(args[0]); f2f_res.append(got)
             rep.cov['evaluations'] += 1
-            rep.distinct.add((text, sname, repr(args)))
-            rep.count('round-axis:orig:' + want.split()[0])
-            if want.startswith('ok') and got != want:
-                # F10: `AbstractFormat.__le__` skips the precision test when the target has no least exponent
-                # (MPFloatContext): a wider operand is "contained", the rounding is deleted / inserted wrongly
-                if is_mp(C) or (is_mp(D) and '{D}' in body): shape = 'round-axis-exp-unbounded-target'
-                elif 'abs(' in body: shape = 'round-axis-abs-asymmetric-bounds'
-                elif any(t in want + got for t in ('nan', 'inf')): shape = 'round-axis-special-value-of-a-rounding-result'
-                elif {want, got} == {'ok (n zero 0)', 'ok (n zero 1)'}: shape = 'round-axis-neg-zero-from-exact-op'
-                else: shape = 'round-axis-other'
-                viol(rep, shape, f'{sname}: original returns {want[:70]} but the rewritten program gives {got[:70]}',
-                     {'ctx_src': C, 'second_ctx': D if '{D}' in body else None, 'strategy': sname,
-                      'operand': '(' + ', '.join(operand_src(a) for a in args) + ',)', 'arg_formats': afs,
-                      'original': want, 'lowered': got, 'program': text, 'lowered_program': describe(xf)})
-            if prog is not None and not got.startswith(('unsupported', 'timeout')):
+            rep.distinct.add((csrc, variant, info.get('what', ''), sname, repr(args)))
+            rep.count('orig:ok')
+            if got.startswith('timeout'):
+                rep.count('timeout'); continue
+            if got != want:
+                if desc is None: desc = describe(xf)
+                shown = operand_src(args[0]) if len(args) == 1 else args_src(args)
+                viol(rep, shape_of(d, eff, args, want, got, info),
+                     f'{sname}: `{csrc}`{info.get("what_txt", "")} maps {shown} to {want[3:60]} but the lowered program gives {got[:60]}',
+                     {'ctx_src': csrc, 'ctx': d, 'variant': variant, 'form': info.get('form'), 'arg_format': info.get('arg_format'), 'strategy': sname,
+                      'operand': shown, 'original': want, 'lowered': got, 'program': text, 'lowered_program': desc})
+            if prog is not None and not got.startswith('unsupported') and (max_model is None or nmodel < max_model):
+                if desc is None: desc = describe(xf)
+                nmodel += 1
                 lines.append(eval_line(entry, prog, args, None, fuel=100000))
-                meta.append(('eval', f'{sname} {C}', repr(args), got, xf))
-        if changed: rep.sample({'strategy': sname, 'original': describe(pinned), 'rewritten': describe(xf)}, cap=16)
+                meta.append(('eval', f'{sname} on {csrc}', repr(args), got, desc))
+        if eff == ('float_to_fixed',) and variant in ('assign', 'mono') and ctx is not None:
+            f2f_tie(rep, xf, ctx, d, csrc, f2f_ops, f2f_res, lines, meta)
+        if len(eff) >= 3: rep.sample({'ctx': csrc, 'strategy': sname, 'lowered': describe(xf)}, cap=6)
 
-# ---------------------------------------------------------------- main
+def plain_one(rep, R, tmp, ci, d, quick, lines, meta, seed):
+    """`with C: y = round(x)` and its simple variants for one source context"""
+    n_break, n_edge = (10, 20) if quick else (40, 70)
+    try:
+        ctx = ctx_obj(d)
+    except Exception:
+        rep.count('ctx-rejected'); return
+    rep.count('fam:' + d['fam']); rep.count('rm:' + d.get('rm', '-'))
+    variants = ['assign'] + ([R.choice(VARIANTS[1:])] if R.random() < 0.5 else [])
+    ops = None
+    for variant in variants:
+        form = 'call' if (ctx_text(d, True) is not None and R.random() < 0.6) else 'global'
+        name = f'q{ci}{variant[0]}'
+        text, csrc = program_text(name, d, variant, form, R)
+        path = os.path.join(tmp, name + '.py')
+        with open(path, 'w') as fh: fh.write(text)
+        try:
+            fn = getattr(load_module(path, f'fpyverif_C10_{seed}_{name}'), name)
+        except Exception as e:
+            rep.count(f'frontend-rejected:{type(e).__name__}'); continue
+        rep.count('variant:' + variant); rep.count('form:' + form)
+        if ops is None:
+            ops = operands_for(R, d, ctx, n_break, n_edge)
+            rep.cov.setdefault('nops', []).append(len(ops))
+        argfmt = None; vops = ops
+        if variant == 'mono':
+            from fpy2.types import RealType
+            argfmt = R.choice(MONO_FMTS)
+            try:
+                actx = py_ctx(argfmt)
+                fn = guarded(lambda: S.monomorphize(fn, None, [RealType(actx)]))
+            except Exception as e:
+                rep.count(f'mono-rejected:{type(e).__name__}'); continue
+            # the premise of a pinned argument format: the operand is one of its values
+            vops = []
+            for x in ops:
+                try: vops.append(actx.round(x))
+                except Exception: pass
+            rep.count('mono:' + argfmt)
+        lower_and_compare(rep, R, fn, [(x,) for x in vops],
+                          {'csrc': csrc, 'd': d, 'variant': variant, 'form': form, 'arg_format': argfmt, 'text': text, 'kind': 'plain'},
+                          quick, lines, meta, ctx=ctx)
+
+# ---------------------------------------------------------------- roundings embedded in program contexts
+#
+# The lowering rewrites consult ANALYSES of the surrounding program: `ValueClassInfer` (which special values the operand can be:
+# branches for NaN / inf / zero are dropped where the operand "cannot" be one), `PartialEval` (is the context statically
+# known), `DefineUse` / reaching definitions.  A rounding alone in a function exercises none of that; these templates put the
+# rounding site under guards, after assignments that fix the class of the operand, in loops, after other roundings.
+
+LITS = ['1', '-1', '2.5', '0.5', '-3', '4', '6', '65504', '-0.25', '100']
+CMP_OPS = ['==', '!=', '<', '<=', '>', '>=']
+
+def rand_atom(R, v, w, L):
+    k = R.randint(0, 13)
+    op = R.choice(CMP_OPS)
+    if k == 0: return f'{v} {op} 0'
+    if k == 1: return f'{v} {op} {L}'
+    if k == 2: return f'{v} {op} {w}'
+    if k == 3: return f'{L} {op} {v}'
+    if k == 4: return f'0 {op} {v}'
+    if k == 5: return f'-{L.lstrip("-")} < {v} <= {L.lstrip("-")}'
+    if k == 6: return f'fp.isnan({v})'
+    if k == 7: return f'fp.isinf({v})'
+    if k == 8: return f'fp.isfinite({v})'
+    if k == 9: return f'fp.signbit({v})'
+    if k == 10: return f'abs({v}) {op} {L.lstrip("-")}'
+    if k == 11: return f'{v} != {L}'          # the comparison a NaN satisfies
+    if k == 12: return f'{v} != {w}'
+    return f'{v} == {v}'                       # false exactly for a NaN
+
+def rand_cond(R, v='x', w='z', L=None, depth=0):
+    L = L or R.choice(LITS)
+    k = R.random()
+    if depth >= 2 or k < 0.5: return rand_atom(R, v, w, L)
+    a = rand_cond(R, v, w, L, depth + 1)
+    if k < 0.62: return f'not ({a})'
+    b = rand_cond(R, v, w, R.choice(LITS), depth + 1)
+    if k < 0.8: return f'({a}) and ({b})'
+    if k < 0.95: return f'({a}) or ({b})'
+    return f'not (({a}) and ({b}))'
+
+PRE_EXPRS = ['abs(x)', 'x * x', '3', '0.5', '0', '-0.0', 'min(x, 4)', 'max(x, 0)', 'max(min(x, 8), -8)', '-x', 'x + 1', 'abs(x) + 1',
+             'x - z', 'fp.sqrt(abs(x))', '(x if x > 0 else 1)', 'fp.copysign(x, z)', 'fp.nan()', 'fp.inf()', '-fp.inf()', 'x * 0', 'x - x',
+             'abs(x) * 0.5', 'min(abs(x), abs(z))', 'max(x, z)', 'min(4, x)', 'max(0, x)', 'min(z, x)', '0 * x', 'x * z', 'x + z', 'z - x', 'abs(z)', '1 / x', 'fp.fma(x, x, 1)', 'z', 'fp.floor(x)', '(0 if fp.isnan(x) else x)']
+
+EMBED_KINDS = ['if2', 'if1', 'nested', 'elif', 'pre', 'pre-real', 'pre-guard', 'guard-pre', 'round-then', 'round-then-guard', 'seq', 'for', 'loop-phi',
+               'while', 'scrub', 'other-guard', 'guard-modify', 'early-return', 'ifexpr', 'pe-static', 'pe-branch', 'ctx-var', 'ctx-var-branch', 'assert',
+               'guard-else-chain', 'ne-sentinel']
+
+def embedded_body(R, C, D, kind=None):
+    """(kind, body text, number of arms tagged).  The function has arguments x, z and returns (result, arm)."""
+    L = R.choice(LITS)
+    rnd = lambda v, tgt, ctx, ind: f'{ind}with {ctx}:\n{ind}    {tgt} = fp.round({v})\n'
+    k = kind or R.choice(EMBED_KINDS + ['if2', 'if2', 'guard-pre', 'guard-pre', 'pre-real', 'pre-real', 'round-then', 'ne-sentinel'])
+    I = '    '
+    if k == 'if2':
+        c = rand_cond(R, L=L)
+        b = (f'{I}if {c}:\n{I}    arm = 1\n' + rnd('x', 'y', C, I * 2) + f'{I}else:\n{I}    arm = 2\n' + rnd('x', 'y', R.choice([C, C, D]), I * 2))
+    elif k == 'ne-sentinel':
+        # the sentinel idiom: a value the caller passes through untouched
+        other = R.choice([L, L, 'z'])
+        b = (f'{I}if x != {other}:\n{I}    arm = 1\n' + rnd('x', 'y', C, I * 2) + f'{I}else:\n{I}    arm = 2\n{I}    y = {other}\n')
+    elif k == 'if1':
+        c = rand_cond(R, L=L)
+        b = f'{I}y = 0\n{I}arm = 0\n{I}if {c}:\n{I}    arm = 1\n' + rnd('x', 'y', C, I * 2)
+    elif k == 'nested':
+        c1, c2 = rand_cond(R, L=L), rand_cond(R)
+        b = (f'{I}if {c1}:\n{I}    if {c2}:\n{I}        arm = 1\n' + rnd('x', 'y', C, I * 3) + f'{I}    else:\n{I}        arm = 2\n' + rnd('x', 'y', C, I * 3)
+             + f'{I}else:\n{I}    arm = 3\n' + rnd('x', 'y', D, I * 2))
+    elif k == 'elif':
+        c1, c2 = rand_atom(R, 'x', 'z', L), rand_atom(R, 'x', 'z', R.choice(LITS))
+        b = (f'{I}if {c1}:\n{I}    arm = 1\n' + rnd('x', 'y', C, I * 2) + f'{I}elif {c2}:\n{I}    arm = 2\n' + rnd('x', 'y', C, I * 2)
+             + f'{I}else:\n{I}    arm = 3\n' + rnd('x', 'y', C, I * 2))
+    elif k in ('pre', 'pre-real'):
+        # the class of an exact result is only known under a context the analysis knows: REAL (exact) or a concrete one
+        e = R.choice(PRE_EXPRS)
+        w = 'fp.REAL' if k == 'pre-real' else R.choice([None, None, D, 'fp.FP32'])
+        asg = f'{I}with {w}:\n{I}    t = {e}\n' if w else f'{I}t = {e}\n'
+        b = asg + f'{I}arm = 0\n' + rnd('t', 'y', C, I)
+    elif k == 'pre-guard':
+        e = R.choice(PRE_EXPRS); c = rand_cond(R, 't', 'x', L)
+        w = R.choice([None, 'fp.REAL', 'fp.REAL'])
+        asg = f'{I}with {w}:\n{I}    t = {e}\n' if w else f'{I}t = {e}\n'
+        b = (asg + f'{I}if {c}:\n{I}    arm = 1\n' + rnd('t', 'y', C, I * 2) + f'{I}else:\n{I}    arm = 2\n' + rnd('t', 'y', C, I * 2))
+    elif k == 'guard-pre':
+        # a guard fixes part of the class of x, an exact operation on it follows, the result is rounded
+        c = rand_cond(R, L=L)
+        e1, e2 = R.choice(PRE_EXPRS), R.choice(PRE_EXPRS)
+        w = R.choice(['fp.REAL', 'fp.REAL', D, None])
+        def asg(e, ind): return (f'{ind}with {w}:\n{ind}    t = {e}\n' if w else f'{ind}t = {e}\n')
+        b = (f'{I}if {c}:\n{I}    arm = 1\n' + asg(e1, I * 2) + rnd('t', 'y', C, I * 2) + f'{I}else:\n{I}    arm = 2\n' + asg(e2, I * 2) + rnd('t', 'y', C, I * 2))
+    elif k == 'round-then':
+        b = rnd('x', 't', D, I) + f'{I}arm = 0\n' + rnd('t', 'y', C, I)
+    elif k == 'round-then-guard':
+        c = rand_cond(R, 't', 'x', L)
+        b = rnd('x', 't', D, I) + (f'{I}if {c}:\n{I}    arm = 1\n' + rnd('t', 'y', C, I * 2) + f'{I}else:\n{I}    arm = 2\n' + rnd('x', 'y', C, I * 2))
+    elif k == 'seq':
+        b = rnd('x', 'a', C, I) + rnd('a', 'y', D, I) + f'{I}arm = 0\n{I}y = y + a * 0\n' if R.random() < 0.3 else rnd('x', 'a', C, I) + rnd('a', 'y', D, I) + f'{I}arm = 0\n'
+    elif k == 'for':
+        b = f'{I}t = x\n{I}arm = 0\n{I}for i in range(3):\n' + rnd('t', 't', C, I * 2) + f'{I}    t = t * 2 - z\n{I}y = t\n'
+    elif k == 'loop-phi':
+        # first iteration: a constant; later ones: the argument (the class of `t` at the rounding is a join over the back edge)
+        b = f'{I}t = {L}\n{I}y = 0\n{I}arm = 0\n{I}for i in range(2):\n' + rnd('t', 'y', C, I * 2) + f'{I}    t = x\n'
+    elif k == 'while':
+        c = rand_cond(R, 't', 'z', L)
+        b = (f'{I}i = 0\n{I}t = x\n{I}arm = 0\n{I}while i < 2:\n{I}    if {c}:\n{I}        arm = arm + 1\n' + rnd('t', 't', C, I * 3)
+             + f'{I}    t = t - z\n{I}    i = i + 1\n{I}y = t\n')
+    elif k == 'scrub':
+        tst = R.choice(['fp.isnan(x)', 'fp.isinf(x)', 'not fp.isfinite(x)', 'x == 0', 'x != x'])
+        b = f'{I}if {tst}:\n{I}    t = {L}\n{I}    arm = 1\n{I}else:\n{I}    t = x\n{I}    arm = 2\n' + rnd('t', 'y', C, I)
+    elif k == 'other-guard':
+        c = rand_cond(R, 'z', 'x', L)
+        b = (f'{I}if {c}:\n{I}    arm = 1\n' + rnd('x', 'y', C, I * 2) + f'{I}else:\n{I}    arm = 2\n' + rnd('x', 'y', C, I * 2))
+    elif k == 'guard-modify':
+        c = rand_cond(R, L=L)
+        m = R.choice([f'x - {L}', 'x * z', '-x', 'x - x', f'min(x, {L})', 'x * 0'])
+        b = (f'{I}if {c}:\n{I}    arm = 1\n{I}    t = {m}\n' + rnd('t', 'y', C, I * 2) + f'{I}else:\n{I}    arm = 2\n{I}    t = z\n' + rnd('t', 'y', C, I * 2))
+    elif k == 'early-return':
+        tst = R.choice(['fp.isnan(x)', 'fp.isinf(x)', 'x == 0', f'x > {L}', f'x != {L}'])
+        b = f'{I}if {tst}:\n{I}    return (z, 1)\n{I}arm = 2\n' + rnd('x', 'y', C, I)
+    elif k == 'ifexpr':
+        c = rand_atom(R, 'x', 'z', L)
+        ie = R.choice([f'x if {c} else {L}', f'{L} if {c} else x', f'x if {c} else z', f'{L} if {c} else -x'])
+        b = f'{I}t = {ie}\n{I}arm = 0\n' + rnd('t', 'y', C, I)
+    elif k == 'pe-static':
+        b = f'{I}p = 5\n{I}q = p + 3\n{I}arm = 0\n{I}with fp.IEEEContext(4, q):\n{I}    y = fp.round(x)\n'
+    elif k == 'pe-branch':
+        b = f'{I}p = 11\n{I}arm = 1\n{I}if z > 0:\n{I}    p = 4\n{I}    arm = 2\n{I}with fp.MPSFloatContext(p, -6):\n{I}    y = fp.round(x)\n'
+    elif k == 'ctx-var':
+        b = f'{I}c = {C}\n{I}arm = 0\n{I}with c:\n{I}    y = fp.round(x)\n'
+    elif k == 'ctx-var-branch':
+        b = f'{I}c = {C}\n{I}arm = 1\n{I}if z > 0:\n{I}    c = {D}\n{I}    arm = 2\n{I}with c:\n{I}    y = fp.round(x)\n'
+    elif k == 'assert':
+        tst = R.choice(['not fp.isnan(x)', 'fp.isfinite(x)', 'x != 0', f'x != {L}', 'x > 0', f'x <= {L}'])
+        b = f'{I}assert {tst}\n{I}arm = 0\n' + rnd('x', 'y', C, I)
+    else:   # guard-else-chain: the FAILED comparison (a NaN fails every ordering and `==`)
+        op = R.choice(['<', '<=', '>', '>=', '=='])
+        b = (f'{I}if x {op} {L}:\n{I}    arm = 1\n{I}    y = x\n{I}else:\n{I}    arm = 2\n' + rnd('x', 'y', C, I * 2))
+    return k, b + f'{I}return (y, arm)\n', L
+
+# contexts the embedded sites round under: where a dropped branch is visible (a format that substitutes a value for NaN / inf,
+# a float lowered through `logb`, a fixed-point format that refuses specials)
+EMBED_CTXS = [
+    dict(fam='ieee', es=5, nbits=16, rm='rne', ov='overflow', k=0),
+    dict(fam='ieee', es=5, nbits=16, rm='rtz', ov='overflow', k=0),
+    dict(fam='ieee', es=4, nbits=8, rm='rna', ov='saturate', k=0),
+    dict(fam='ef', es=2, nbits=4, inf=False, kind='none', eoff=0, rm='rne', ov='overflow', k=0, nv=None, iv=None),          # MX_E2M1: NaN -> 6
+    dict(fam='ef', es=4, nbits=8, inf=False, kind='maxval', eoff=0, rm='rne', ov='overflow', k=0, nv=None, iv=None),        # E4M3: inf -> NaN
+    dict(fam='ef', es=4, nbits=8, inf=False, kind='none', eoff=0, rm='rne', ov='overflow', k=0, nv=('fin', False, 0, 1), iv=('fin', True, 0, 3)),
+    dict(fam='ef', es=3, nbits=6, inf=True, kind='negzero', eoff=0, rm='rne', ov='overflow', k=0, nv=None, iv=None),
+    dict(fam='mps', p=11, emin=-14, rm='rne', k=0, en=True, ei=True, nv=None, iv=None),
+    dict(fam='mps', p=3, emin=-2, rm='rtn', k=0, en=False, ei=False, nv=('fin', False, 0, 1), iv=('fin', False, 3, 1)),
+    dict(fam='mp', p=5, rm='rne', k=0, en=True, ei=True, nv=None, iv=None),
+    dict(fam='mpb', p=4, emin=-3, pos=(False, 1, 13), neg=(True, 1, 13), rm='rne', ov='overflow', k=0, en=True, ei=True, nv=None, iv=None),
+    dict(fam='mpb', p=4, emin=-3, pos=(False, 1, 13), neg=(True, 1, 13), rm='rtn', ov='overflow', k=0, en=False, ei=True, nv=('fin', False, 0, 0), iv=None),
+    dict(fam='fixed', signed=True, scale=-4, nbits=8, rm='rne', ov='saturate', k=0, nv=('fin', False, 0, 0), iv=('fin', False, 0, 1)),
+    dict(fam='fixed', signed=True, scale=-4, nbits=8, rm='rtz', ov='saturate', k=0, nv=None, iv=None),
+    dict(fam='smfixed', scale=-3, nbits=6, rm='rne', ov='saturate', k=0, nv=None, iv=None),
+    dict(fam='mpfix', nmin=-5, rm='rne', k=0, nz=True, en=True, ei=True, nv=None, iv=None),
+    dict(fam='mpfix', nmin=-3, rm='rtp', k=0, nz=True, en=False, ei=False, nv=('fin', False, 0, 1), iv=('fin', False, 3, 1)),
+    dict(fam='mpbfix', nmin=-4, pos=(False, 0, 7), neg=(True, 0, 7), rm='rne', ov='overflow', k=0, nz=True, en=False, ei=True, nv=('fin', False, 0, 1), iv=None),
+    dict(fam='mpbfix', nmin=-4, pos=(False, 0, 7), neg=(True, 0, 7), rm='rtn', ov='overflow', k=0, nz=True, en=True, ei=True, nv=None, iv=None),
+    dict(fam='mpbfix', nmin=-3, pos=(False, -2, 21), neg=(True, 0, 0), rm='rtz', ov='overflow', k=0, nz=False, en=False, ei=False, nv=None, iv=None),
+]
+
+# the shapes the seeded-change experiments showed to be needed, always present (kind, condition / expression, context index)
+EMBED_FIXED = [
+    ('ne-lit', 'x != 1', 0), ('ne-lit', 'x != 1', 3), ('ne-var', 'x != z', 0), ('ne-var', 'z != x', 3),
+    ('ne-lit', 'not (x == 2.5)', 5), ('ne-lit', '1 != x', 12), ('ne-lit', 'x != 1 and x != 4', 3), ('ne-lit', 'x != 1 or x > 3', 0),
+    # the sign of a NaN observed after a rescaled rounding (`rescale_fixed` multiplies under REAL, which drops it)
+    ('nan-sign', None, 18),
+]
+NAN_SIGN_BODY = ('    with {C}:\n        t = fp.round(x)\n    if fp.signbit(t):\n        arm = 1\n        y = 1\n    else:\n        arm = 2\n        y = 2\n'
+                 '    return (y, arm)\n')
+
+def embedded_inputs(R, ctx, d, L, n_edge):
+    """argument pairs (x, z): specials, the literal and its neighbours, the edges of the format; z from a small pool that
+    includes NaN and x itself -- every arm of every template is reached by some pair"""
+    Lq = Fraction(L)
+    xs = special_operands()
+    for q in (Lq, -Lq, Lq + Fraction(1, 1 << 20), Lq - Fraction(1, 1 << 20), Fraction(3, 2), Fraction(-9, 4), Fraction(1, 1 << 30),
+              -Fraction(10) ** 30, Fraction(8), Fraction(1)):
+        xs.append(as_operand(R, q))
+    ev = edge_values(ctx, d, R)
+    R.shuffle(ev)
+    xs += [as_operand(R, v) for v in ev[:n_edge] if v.denominator & (v.denominator - 1) == 0]
+    zpool = [1.0, float('nan'), 0.0, -1.0, float('inf'), 2.5, -0.0, float(Lq) if abs(Lq) < 1e300 else 1.0]
+    out = []
+    nspecial = len(special_operands())
+    for i, x in enumerate(xs):
+        zs = [R.choice(zpool), R.choice(zpool)]
+        if i < nspecial: zs = [float('nan'), float('inf'), 0.0, 1.0, R.choice(zpool)]   # a special x meets every class of z
+        if R.random() < 0.3: zs.append(x)
+        seen = set()
+        for z in zs:
+            if repr(z) in seen: continue
+            seen.add(repr(z)); out.append((x, z))
+    return out
+
+def embedded_one(rep, R, tmp, ei, quick, lines, meta, seed):
+    fixed = EMBED_FIXED[ei] if ei < len(EMBED_FIXED) else None
+    d = dict(EMBED_CTXS[fixed[2]] if fixed else R.choice(EMBED_CTXS + [add_substitutes(R, rand_ctx(R)) for _ in range(6)]))
+    d2 = dict(R.choice(EMBED_CTXS))
+    try:
+        ctx = ctx_obj(d); ctx_obj(d2)
+    except Exception:
+        rep.count('ctx-rejected'); return
+    name = f'e{ei}'
+    pre = ''
+    def ctext(dd, tag):
+        nonlocal pre
+        t = ctx_text(dd, True)
+        if t is not None and R.random() < 0.6: return t
+        pre += f'{tag}_{name} = {ctx_text(dd, False)}\n'
+        return f'{tag}_{name}'
+    C, D = ctext(d, 'C'), ctext(d2, 'D')
+    if fixed:
+        kind, cond, _ = fixed
+        I = '    '
+        body = (f'{I}if {cond}:\n{I}    arm = 1\n{I}    with {C}:\n{I}        y = fp.round(x)\n{I}else:\n{I}    arm = 2\n{I}    y = x\n{I}return (y, arm)\n')
+        if kind == 'nan-sign': body = NAN_SIGN_BODY.format(C=C)
+        L = '1'
+    else:
+        # every kind of site appears in every run (three rounds over the list), the rest is drawn at random
+        j = ei - len(EMBED_FIXED)
+        kind, body, L = embedded_body(R, C, D, EMBED_KINDS[j % len(EMBED_KINDS)] if j < 3 * len(EMBED_KINDS) else None)
+    text = HEADER + pre + ('\n' if pre else '') + f'@fp.fpy\ndef {name}(x, z):\n' + body
+    path = os.path.join(tmp, name + '.py')
+    with open(path, 'w') as fh: fh.write(text)
+    try:
+        fn = getattr(load_module(path, f'fpyverif_C10_{seed}_{name}'), name)
+    except Exception as e:
+        rep.count(f'embedded:frontend-rejected:{kind}:{type(e).__name__}'); return
+    rep.count('embedded:' + kind)
+    csrc = ctx_text(d, False)
+    inputs = embedded_inputs(R, ctx, d, L, 8 if quick else 20)
+    # which arms do the inputs reach (on the original program)?
+    arms = set()
+    for a in inputs:
+        r = run_real(fn, a)
+        if r.startswith('ok (t '): arms.add(r.rsplit('(n ', 1)[-1])
+    rep.count(f'embedded:arms-reached:{len(arms)}')
+    lower_and_compare(rep, R, fn, inputs,
+                      {'csrc': csrc, 'd': d, 'variant': 'embedded:' + kind, 'form': None, 'arg_format': None, 'text': text, 'kind': 'embedded',
+                       'what': text, 'what_txt': f' inside `{kind}`'},
+                      quick, lines, meta, ctx=None, max_model=10 if quick else 30)
+
+# ---------------------------------------------------------------- work items, run in parallel
+
+class MiniRep:
+    """what a worker records for one work item (merged into the Report by the parent)"""
+    def __init__(self):
+        self.hist = {}; self.cov = {'evaluations': 0, 'samples': []}; self.distinct = set(); self.broken = []; self.viols = []
+    def count(self, key, n=1): self.hist[key] = self.hist.get(key, 0) + n
+    def sample(self, s, cap=12):
+        if len(self.cov['samples']) < cap: self.cov['samples'].append(s)
+    def violation(self, what, d): self.viols.append((what, d))
+    def broke(self, kind, name, detail): self.broken.append((kind, name, detail))
+
+_TMP = None
+
+def do_item(item):
+    kind, idx, payload, seed, tier = item
+    quick = tier == 'quick'
+    rep = MiniRep()
+    R = Prng(seed, f'C10:{kind}:{idx}')
+    lines, meta = [], []
+    tmp = os.path.join(_TMP, f'{kind}{idx}')
+    os.makedirs(tmp, exist_ok=True)
+    try:
+        if kind == 'plain': plain_one(rep, R, tmp, idx, payload, quick, lines, meta, seed)
+        elif kind == 'emb': embedded_one(rep, R, tmp, idx, quick, lines, meta, seed)
+        else: round_axis_one(rep, R, tmp, idx, lines, meta)
+    except Exception:
+        import traceback
+        rep.broke('harness', f'C10.{kind}[{idx}]', traceback.format_exc())
+    return (kind, idx, rep.hist, rep.cov, rep.distinct, rep.broken, rep.viols, lines, meta)
 
 def run(rep, tier, seed):
+    global _TMP
+    import multiprocessing
     R = Prng(seed, 'C10')
     quick = tier == 'quick'
     n_rand = 30 if quick else 450
-    n_break, n_edge = (10, 20) if quick else (40, 70)
-    ctxs = [('corpus', d) for d in corpus()]
-    if quick:   # the corpus is large: a seeded half of it per quick run, all of it in the thorough tier
-        keep = [c for c in ctxs if R.random() < 0.35 or c[1].get('must')]
-        ctxs = keep
+    ctxs = [d for d in corpus()]      # the whole corpus in both tiers (one context per acceptance / refusal rule of each strategy)
     for _ in range(n_rand):
-        ctxs.append(('rand', add_substitutes(R, rand_ctx(R))))
-    tmp = tempfile.mkdtemp(prefix='fpyverif_C10_', dir='/var/tmp')
-    lines, meta = [], []
-    accepted = rep.cov.setdefault('accepted_per_strategy', {})
-    refused = rep.cov.setdefault('refused_per_strategy', {})
-    nops = []
+        ctxs.append(add_substitutes(R, rand_ctx(R)))
+    n_emb = len(EMBED_FIXED) + (120 if quick else 1500)
+    n_axis = len(ROUND_AXIS_CORPUS) + (60 if quick else 800)
+    items = ([('plain', i, d, seed, tier) for i, d in enumerate(ctxs)] + [('emb', i, None, seed, tier) for i in range(n_emb)]
+             + [('axis', i, None, seed, tier) for i in range(n_axis)])
+    _TMP = tempfile.mkdtemp(prefix='fpyverif_C10_', dir='/var/tmp')
+    jobs = int(os.environ.get('VERIF_JOBS', '0') or 0) or min(16, os.cpu_count() or 1)
+    results = []
     try:
-        for ci, (origin, d) in enumerate(ctxs):
-            try:
-                ctx = ctx_obj(d)
-            except Exception:
-                rep.count('ctx-rejected'); continue
-            rep.count('fam:' + d['fam']); rep.count('rm:' + d.get('rm', '-'))
-            variants = ['assign'] + ([R.choice(VARIANTS[1:])] if R.random() < 0.5 else [])
-            ops = None
-            for variant in variants:
-                form = 'call' if (ctx_text(d, True) is not None and R.random() < 0.6) else 'global'
-                name = f'q{ci}{variant[0]}'
-                text, csrc = program_text(name, d, variant, form, R)
-                path = os.path.join(tmp, name + '.py')
-                with open(path, 'w') as fh: fh.write(text)
-                try:
-                    fn = getattr(load_module(path, f'fpyverif_C10_{seed}_{name}'), name)
-                except Exception as e:
-                    rep.count(f'frontend-rejected:{type(e).__name__}'); continue
-                rep.count('variant:' + variant); rep.count('form:' + form)
-                if ops is None:
-                    ops = operands_for(R, d, ctx, n_break, n_edge)
-                    nops.append(len(ops))
-                argfmt = None; vops = ops
-                if variant == 'mono':
-                    from fpy2.types import RealType
-                    argfmt = R.choice(MONO_FMTS)
-                    try:
-                        actx = py_ctx(argfmt)
-                        fn = guarded(lambda: S.monomorphize(fn, None, [RealType(actx)]))
-                    except Exception as e:
-                        rep.count(f'mono-rejected:{type(e).__name__}'); continue
-                    # the premise of a pinned argument format: the operand is one of its values
-                    vops = []
-                    for x in ops:
-                        try: vops.append(actx.round(x))
-                        except Exception: pass
-                    rep.count('mono:' + argfmt)
-                base = {}
-                def original(x, key):
-                    if key not in base: base[key] = run_real(fn, (x,))
-                    return base[key]
-                # every strategy alone + every prefix of the documented chains; identical sequences are run once
-                todo = {}    # tuple of names -> None
-                for nm in STRATS:
-                    if nm != 'simplify': todo[(nm,)] = None
-                chains = list(CHAINS.items()) if not quick else [(k, v) for k, v in CHAINS.items() if k in ('float-recipe', 'fixed-recipe') or R.random() < 0.4]
-                for _, seq in chains:
-                    for k in range(2, len(seq) + 1): todo[tuple(seq[:k])] = None
-                done = {}    # sequence -> (Function | None, effective sequence)
-                def build(seq):
-                    if seq in done: return done[seq]
-                    if len(seq) == 0:
-                        done[seq] = (fn, ()); return done[seq]
-                    prev, eff = build(seq[:-1])
-                    if prev is None:
-                        done[seq] = (None, eff); return done[seq]
-                    tag = '' if len(seq) == 1 else 'chain-'
-                    out, status = apply_one(rep, seq[-1], prev, tag)
-                    if len(seq) == 1:
-                        bucket = accepted if status == 'applied' else refused
-                        if status in ('applied', 'refused'):
-                            bucket[seq[0]] = bucket.get(seq[0], 0) + 1
-                    if status.startswith('error'):
-                        rep.count(f'{tag}strategy-error:{seq[-1]}:{status[6:]}')
-                        # a later step of a chain that cannot run on the output of an earlier one is a defect of
-                        # the composed chain only if the documentation promises it; recorded, not judged
-                        done[seq] = (None, eff); return done[seq]
-                    if status == 'applied' and not out.ast.is_equiv(prev.ast):
-                        done[seq] = (out, eff + (seq[-1],))
-                    else:
-                        done[seq] = (prev, eff)
-                    return done[seq]
-                seen_eff = set()
-                for seq in todo:
-                    xf, eff = build(seq)
-                    if xf is None or not eff or eff in seen_eff: continue
-                    seen_eff.add(eff)
-                    sname = ' > '.join(eff)
-                    rep.count('lowered-programs')
-                    rep.count(f'chain-length:{len(eff)}')
-                    rep.cov['programs'] = rep.cov.get('programs', 0) + 1
-                    entry, prog = try_export(rep, xf)
-                    f2f_ops, f2f_res = [], []
-                    for oi, x in enumerate(vops):
-                        want = original(x, oi)
-                        if not want.startswith('ok'):
-                            rep.count('orig:' + want.split()[0] + (':' + want.split()[1] if ' ' in want else '')); continue
-                        got = run_real(xf, (x,))
-                        f2f_ops.append(x); f2f_res.append(got)
-                        rep.cov['evaluations'] += 1
-                        rep.distinct.add((csrc, variant, sname, repr(x)))
-                        rep.count('orig:ok')
-                        if got.startswith('timeout'):
-                            rep.count('timeout'); continue
-                        if got != want:
-                            viol(rep, shape_of(d, eff, x, want, got),
-                                 f'{sname}: `{csrc}` maps {x!r} to {want[3:60]} but the lowered program gives {got[:60]}',
-                                 {'ctx_src': csrc, 'ctx': d, 'variant': variant, 'form': form, 'arg_format': argfmt, 'strategy': sname, 'operand': operand_src(x),
-                                  'original': want, 'lowered': got, 'program': text, 'lowered_program': describe(xf)})
-                        if prog is not None and not got.startswith('unsupported'):
-                            lines.append(eval_line(entry, prog, (x,), None, fuel=100000))
-                            meta.append(('eval', f'{sname} on {csrc}', repr(x), got, xf))
-                    if eff == ('float_to_fixed',) and variant in ('assign', 'mono'):
-                        f2f_tie(rep, xf, ctx, d, csrc, f2f_ops, f2f_res, lines, meta)
-                    if len(eff) >= 3: rep.sample({'ctx': csrc, 'strategy': sname, 'lowered': describe(xf)}, cap=6)
-        run_round_axis(rep, R, tmp, 45 if quick else 800, lines, meta)
-        # correspondence: the Lean evaluator on the lowered programs
-        model = run_driver(lines)
-        rep.cov['traces_model_vs_impl'] = len(lines)
-        for line, (kind, what, x, got, xf), m in zip(lines, meta, model):
-            if m.startswith('bad-'):
-                rep.count('model-unsupported:' + m[:40]); continue
-            if kind == 'f2f':
-                # number model of the emitted rounding (value only: a program does not observe flags)
-                rep.count('f2f-model-evaluations')
-                mp = parse_res(m)
-                mv = 'err ' + mp[1] if mp[0] == 'err' else f'ok (n {mp[1]})'
-                if mv != got:
-                    rep.broke('correspondence', 'C10.float_to_fixed-model',
-                              f'{what}\n{describe(xf)}\noperand={x}\nimpl ={got}\nmodel={mv}\nline={line}')
-                continue
-            if m != got:
-                rep.broke('correspondence', 'C10.eval-lowered',
-                          f'{what}\n{describe(xf)}\noperand={x}\nimpl ={got}\nmodel={m}\nline={line}')
+        if jobs > 1:
+            with multiprocessing.get_context('fork').Pool(jobs) as pool:
+                for r in pool.imap_unordered(do_item, items, chunksize=1): results.append(r)
+        else:
+            results = [do_item(it) for it in items]
     finally:
-        shutil.rmtree(tmp, ignore_errors=True)
+        shutil.rmtree(_TMP, ignore_errors=True)
+    order = {'plain': 0, 'emb': 1, 'axis': 2}
+    results.sort(key=lambda r: (order[r[0]], r[1]))
+    lines, meta, nops = [], [], []
+    recorded = {}
+    for kind, idx, hist, cov, distinct, broken, viols, ls, ms in results:
+        for k, v in hist.items(): rep.count(k, v)
+        rep.cov['evaluations'] += cov.get('evaluations', 0)
+        rep.cov['programs'] = rep.cov.get('programs', 0) + cov.get('programs', 0)
+        for key in ('accepted_per_strategy', 'refused_per_strategy'):
+            tgt = rep.cov.setdefault(key, {})
+            for k, v in cov.get(key, {}).items(): tgt[k] = tgt.get(k, 0) + v
+        nops += cov.get('nops', [])
+        for s in cov.get('samples', []): rep.sample(s, cap=14)
+        rep.distinct |= distinct
+        for b in broken: rep.broke(*b)
+        for shape, what, d in viols:
+            recorded[shape] = recorded.get(shape, 0) + 1
+            if recorded[shape] <= PER_SHAPE:
+                d = dict(d); d['shape'] = shape; d['finding'] = FINDING_OF_SHAPE.get(shape)
+                rep.violation(what, d)
+        lines += ls; meta += ms
+    # correspondence: the Lean evaluator on the lowered programs
+    model = run_driver(lines)
+    rep.cov['traces_model_vs_impl'] = len(lines)
+    for line, (kind, what, x, got, desc), m in zip(lines, meta, model):
+        if m.startswith('bad-'):
+            rep.count('model-unsupported:' + m[:40]); continue
+        if kind == 'f2f':
+            # number model of the emitted rounding (value only: a program does not observe flags)
+            rep.count('f2f-model-evaluations')
+            mp = parse_res(m)
+            mv = 'err ' + mp[1] if mp[0] == 'err' else f'ok (n {mp[1]})'
+            if mv != got:
+                rep.broke('correspondence', 'C10.float_to_fixed-model', f'{what}\n{desc}\noperand={x}\nimpl ={got}\nmodel={mv}\nline={line}')
+            continue
+        if m != got:
+            rep.broke('correspondence', 'C10.eval-lowered', f'{what}\n{desc}\noperand={x}\nimpl ={got}\nmodel={m}\nline={line}')
     rep.cov['operands_per_context'] = {'min': min(nops) if nops else 0, 'max': max(nops) if nops else 0,
                                        'mean': round(sum(nops) / len(nops), 1) if nops else 0}
     rep.cov['contexts'] = len(nops)
-    rep.cov['rule'] = ('source contexts: fixed corpus (IEEE half in all 8 modes, single, EFloat with each NaN kind x inf on/off x substitutes x shifted exponent, '
-                       'MPS/MPB floats with mirrored and asymmetric bounds, two\'s-complement / sign-magnitude / MPFixed / MPBFixed with every overflow mode, '
-                       'signed zero on/off, finite and non-finite substitutes) + seeded random small contexts of all families; program variants: assign, returned round, '
-                       'pre-rounded operand, two rounds in a block; context written as a constructor call or bound at module level; every strategy alone (unfold_overflow '
-                       'also with early_check) and every prefix of the documented chains; operands: breakpoints of the format, neighbourhood of +-maxval, the first value past it, '
-                       'infval, ties, subnormal seam, huge/tiny, +-0, +-inf, NaN as float/Fraction/Float/int, non-dyadic rationals; '
-                       'elim_round / insert_round on templates monomorphized to argument formats, inputs are members of those formats; '
-                       'distinct = distinct (context text, variant, effective strategy sequence, operand)')
+    rep.cov['jobs'] = jobs
+    rep.cov['rule'] = ('(1) plain sites: source contexts = fixed corpus (IEEE half in all 8 modes, single, EFloat with each NaN kind x inf on/off x substitutes x shifted exponent, '
+                       'MPS/MPB floats with mirrored and asymmetric bounds, two\'s-complement / sign-magnitude / MPFixed / MPBFixed with every overflow mode, ExpContext, '
+                       'signed zero on/off, finite and non-finite substitutes) + seeded random small contexts of all families; variants: assign, returned round, '
+                       'pre-rounded operand, two rounds in a block, monomorphized argument; context written as a constructor call or bound at module level; '
+                       '(2) embedded sites: the rounding inside each arm of `if`/`elif`/nested `if` on random conditions (==, !=, <, <=, >, >= against 0, non-zero literals, another '
+                       'variable, chains, isnan/isinf/isfinite/signbit, and/or/not), after assignments fixing the class of the operand (abs, squares, literals, min/max, NaN scrubbing, '
+                       'if-expressions), after another rounding under a second context, two lowerable roundings in sequence, in for/while loops (incl. a loop-carried operand), after '
+                       'assert / early return, under contexts computed or selected at run time (partial evaluation); inputs (x, z): NaN, +-inf, +-0, the literal and its neighbours, '
+                       'the edges of the format, z incl. NaN and x itself (arms reached are counted); '
+                       'every strategy alone (unfold_overflow also with early_check) and every prefix of the documented chains on all of them; '
+                       '(3) elim_round / insert_round on templates (straight-line, branches, loops) monomorphized to argument formats, inputs are members of those formats; '
+                       'operands of (1): breakpoints of the format, neighbourhood of +-maxval, the first value past it, infval, ties, subnormal seam, huge/tiny, specials, non-dyadic rationals; '
+                       'distinct = distinct (context text, program, effective strategy sequence, arguments)')
     rep.assumptions += ['the oracle for each lowered program is the real interpreter on the original program (the property is an equivalence of two real programs)',
                         'NaN sign is not compared (canonical form `nan`)',
-                        'a later chain step that raises on the output of an earlier step is recorded (strategy-error) and not judged']
+                        'a later chain step that raises on the output of an earlier step is recorded (strategy-error) and not judged',
+                        'work items draw from per-item PRNG streams derived from VERIF_SEED, so the run does not depend on the number of worker processes']
 
 
 def replay(rep, data):
@@ -915,7 +1294,7 @@ def replay(rep, data):
                     xf = fn
                     for nm in v['strategy'].split(' > '):
                         xf = STRATS[nm][0](xf)
-                    args = (x,)
+                    args = x if isinstance(x, tuple) else (x,)
                 want = run_real(fn, args); got = run_real(xf, args)
             except Exception as e:
                 print(f'[{i}] {v.get("shape")}: replay failed: {type(e).__name__}: {e}'); continue
